@@ -259,3 +259,4 @@ PROPS['C15']['expect_probes'] = PROPS['C15']['expect_probes'] + ['owner_destroye
 PROPS['C11']['expect_probes'] = PROPS['C11']['expect_probes'] + ['pointer_argument_aligned_for_the_guest_only', 'dylib_lookup_of_name_known_to_the_process_only']
 PROPS['C03']['expect_probes'] = PROPS['C03']['expect_probes'] + ['F2_integer_operand_rewritten_between_accesses']
 PROPS['C19']['expect_probes'] = PROPS['C19']['expect_probes'] + ['timing_records_read_after_destroy']
+PROPS['C12']['expect_probes'] = PROPS['C12']['expect_probes'] + ['another_sandbox_created_and_destroyed_inside_a_callback']
